@@ -83,8 +83,8 @@ def run(ctx):
                 "other_tags": sorted({f.tag for f in other}),
             })
             # shrink one representative per kind of failure
-            for f in sc.group_failures(mine, 2)[:4] + sc.group_failures(bad, 2)[:4]:
-                shrunk = sc.shrink(ctx, rel, exe, f) if f.scenario else None
+            for f in sc.group_failures(mine, 1)[:3] + sc.group_failures(bad, 1)[:3]:
+                shrunk = sc.shrink(ctx, rel, exe, f, budget=120) if f.scenario else None
                 item = (f.text if not shrunk else shrunk[3].text, sc.replay_lines(f, shrunk, feats))
                 (oracle if f.kind == "ORACLE" else corr).append(item)
             if rel and not ctx.samples:
